@@ -27,6 +27,11 @@ EXPLANATION = (
 EXPLANATION += (
     ' ADDED: Block-wise assembled arrays of the general loaders take part in the hull rule (the decoded region is the minimal aligned hull of the request on every axis).'
 )
+EXPLANATION += (
+    ' ADDED (session 4): C07.5 second half - every call of read_variant_headers (whole arrays) inside gen_trace_header '
+    'lies, on every path of a 3D file, under load_all_headers or not structured (path facts, disjunctive knowledge '
+    'included): on a regular file with default arguments no path fetches whole arrays, whatever the reader did before.'
+)
 ASSUMPTIONS = [
     'request bounds are non-negative integers (C14 decides that they are checked)',
     'a fixed-rate ZFP stream of shape s occupies rate*prod(s)/8 bytes',
@@ -250,6 +255,36 @@ def header_reads(ctx):
                 ctx.ok('C07.5', f, c, '4 bytes at <array offset> + 4*index, once per stored key, structured files only')
     if not found:
         raise AnalysisError('gen_trace_header no longer performs a range read')
+    # the other half: whole header arrays are fetched only when the caller asked for them (load_all_headers) or the file
+    # is not a regular grid - on no path of a regular file with the default arguments, whatever the reader did before
+    rv = P.func(RF.READER + '.read_variant_headers')
+    for e in G.callees(f):
+        if e.target is rv:
+            paths = fm3.paths_at(e.call) or []
+            def allowed(p):
+                if ('T', 'load_all_headers') in p or ('F', 'self.structured') in p:
+                    return True
+                for a in p:
+                    # disjunctive knowledge kept as a compound atom: every disjunct is one of the two allowed reasons
+                    if a[0] == 'T' and isinstance(a[1], str) and ' or ' in a[1]:
+                        try:
+                            t = ast.parse(a[1], mode='eval').body
+                        except SyntaxError:
+                            continue
+                        if isinstance(t, ast.BoolOp) and isinstance(t.op, ast.Or) and \
+                                all(U(v) in ('load_all_headers', 'not self.structured') for v in t.values):
+                            return True
+                return False
+            bad = [p for p in paths if not allowed(p)]
+            if bad:
+                extra = sorted({a[1] for p in bad for a in p if a[0] in ('T', 'F', '>', '<', '!=', '==', '>=', '<=') and
+                                isinstance(a[1], str) and 'variant_headers' in ' '.join(str(x) for x in a)})
+                ctx.fail('C07.5', f, enclosing_stmt(e.call), 'whole header arrays are fetched on a path of a regular file without '
+                         'load_all_headers%s: regenerating one header then costs the full arrays instead of 4 bytes per stored '
+                         'array' % (' (taken depending on %s - the state left by earlier calls)' % extra[0] if extra else ''),
+                         line=e.call.lineno, key_extra='whole-arrays')
+            else:
+                ctx.ok('C07.5', f, e.call, 'whole-array load only under load_all_headers or for irregular files')
 
 
 def chunk_lru(ctx):
